@@ -669,6 +669,17 @@ def rt_cases(prop):
             S('top', [S('n1', [S('n2', [J('x', critical=True, outcome='raise')], critical=True)], critical=True),
                       J('y', duration=3)], critical=False),
             S('top', [J('a', shutdown_duration=3), J('b')], shutdown_timeout=0.125),
+            # a critical and a non-critical job raising in the same batch, with successors and a long job
+            S('top', [J('c', critical=True, outcome='raise'), J('n', outcome='raise'), J('l', duration=5),
+                      J('s1'), J('s2')], [(3, 0), (4, 1)]),
+            S('top', [J('c', critical=True, outcome='raise'), J('n', outcome='raise'), J('l', duration=5),
+                      J('q1', duration=5), J('q2', duration=5), J('s1')], [(5, 1)], window=3),
+            S('top', [S('in', [J('c', critical=True, outcome='raise'), J('n', outcome='raise', yields=1),
+                               J('l', duration=5), J('s1')], [(3, 1)], critical=True), J('o', duration=4)]),
+            # redundant edges: a requires nothing; m requires a; l requires a and m
+            S('top', [J('a'), J('m', duration=2), J('l')], [(1, 0), (2, 0), (2, 1)]),
+            S('top', [J('a'), J('b'), J('m', duration=2), J('l')], [(2, 0), (3, 1), (3, 2)]),
+            S('top', [J('a'), J('m', duration=2), S('l', [J('x')])], [(1, 0), (2, 0), (2, 1)]),
             # a requirement finishing a few loop iterations after another one that raised, while the window is full
             S('top', [J('r1', outcome='raise'), J('r2', yields=3), J('x1', duration=5), J('x2', duration=5),
                       J('x3', duration=5), J('c')], [(2, 0), (3, 0), (4, 0), (5, 0), (5, 1)], window=2),
